@@ -102,9 +102,45 @@ def correspond(ctx):
     o_none = Oracle(ctx, "missing-hash-after-reconfiguration")
     for tag, inp, ok, obs, exp in none_after_reconfiguration_cases(rng, 25 if not ctx.thorough else 500):
         o_none.check(tag, ok, inp, obs, exp)
-    for tag, inp, ok, obs, exp in none_any_default_cases():
-        o_none.check(tag, ok, inp, obs, exp)
+    for gen in (none_any_default_cases(), disabled_edge_cases()):
+        for tag, inp, ok, obs, exp in gen:
+            o_none.check(tag, ok, inp, obs, exp)
     return merge(suite, s_hist, o_none)
+
+
+def disabled_edge_cases():
+    """(tag, input, ok, observed, expected): the disabled hasher works whatever the deprecation policy says about it (it never makes password
+    hashes, so being 'deprecated' cannot take it out of service), and a disabled string given as BYTES that are not ASCII after the marker
+    is still a disabled string"""
+    from passlib.context import CryptContext
+
+    for kw in ({"deprecated": "auto"}, {"deprecated": ["auto"]}, {"deprecated": ["unix_disabled"]}, {"deprecated": ["unix_disabled", "des_crypt"]}, {}):
+        for schemes in (["md5_crypt", "des_crypt", "unix_disabled"], ["unix_disabled", "md5_crypt", "des_crypt"]):
+            if kw.get("deprecated") in ("auto", ["auto"]) and schemes[0] == "unix_disabled":
+                continue        # the default scheme cannot be the disabled hasher
+            inp = {"op": "disable-under-deprecation", "schemes": schemes, "kwds": kw}
+            try:
+                c = CryptContext(schemes, **kw)
+            except Exception:  # noqa: BLE001
+                continue
+            try:
+                h = c.handler("md5_crypt").hash("pw")
+                d = c.disable(h)
+                obs = (c.is_enabled(d), c.verify("pw", d), c.enable(d) == h, c.is_enabled(c.disable()), c.verify("", c.disable()))
+            except Exception as e:  # noqa: BLE001
+                obs = errname(e) + ": " + str(e)[:80]
+            yield ("disable-under-deprecation", inp, obs == (False, False, True, False, False), obs, (False, False, True, False, False))
+    c = CryptContext(["md5_crypt", "unix_disabled"])
+    for raw, back in ((b"!caf\xc3\xa9", "caf\u00e9"), (b"*\xff\xfe", None), (b"!\xe9t\xe9", None), ("!caf\u00e9".encode("utf-8"), "caf\u00e9")):
+        inp = {"op": "disabled-bytes", "hash": raw.hex()}
+        try:
+            obs = [c.is_enabled(raw), c.verify("pw", raw), c.verify_and_update("pw", raw)]
+            if back is not None:
+                obs.append(c.enable(raw))
+            want = [False, False, (False, None)] + ([back] if back is not None else [])
+        except Exception as e:  # noqa: BLE001
+            obs, want = errname(e) + ": " + str(e)[:80], "recognised as disabled"
+        yield ("disabled-bytes", inp, obs == want, obs, want)
 
 
 def none_any_default_cases():
@@ -237,9 +273,10 @@ def search(ctx, broken, seeds):
     for tag, inp, ok, obs, exp in none_after_reconfiguration_cases(ctx.rng, 40):
         if not ok:
             return {"input": inp, "observed": obs, "expected": exp, "check": tag}
-    for tag, inp, ok, obs, exp in none_any_default_cases():
-        if not ok:
-            return {"input": inp, "observed": obs, "expected": exp, "check": tag}
+    for gen in (none_any_default_cases(), disabled_edge_cases()):
+        for tag, inp, ok, obs, exp in gen:
+            if not ok:
+                return {"input": inp, "observed": obs, "expected": exp, "check": tag}
     originals = [md5_crypt.hash("pw"), sha256_crypt.using(rounds=1000).hash("pw"), des_crypt.hash("pw"), ldap_md5.hash("pw")]
     extra = [v for _n, v in every_scheme_hash()]
     # both disabled hashers in one context, either order: enable() restores through the handler that recognises the string (the first claimer)
